@@ -1,5 +1,6 @@
 import LexVerif.Model.FastPath
 import LexVerif.Model.Lemire
+import LexVerif.Model.Binary
 /-!
 # Model.Ops.ParseAlgos — line-protocol handlers for the string→float algorithm components
 
@@ -11,7 +12,7 @@ bin TY FMT MANT EXP MANY LOSSY      binary::<TY, FMT>
 sbin TY FMT EXP INTHEX FRACHEX|-    slow_binary::<TY, FMT>
 fp  TY FMT MANT EXP MANY [NEG]      Number::try_fast_path::<TY, FMT>   -> `some <bits>` | `none`
 ```
-An `ExtendedFloat80` is rendered `ok <mant> <exp>` (valid, `exp ≥ 0`) / `inv <mant> <exp>` (invalid marker).
+An `ExtendedFloat80` is rendered `ok <bits> <mant> <exp>` (valid, `exp ≥ 0`; bits = `extended_to_float`) / `inv <mant> <exp>` (invalid marker).
 `spec` is the contract: a **valid** non-lossy result is the correctly rounded float (`roundNE`), an invalid
 one is unconstrained here (the bracketing property is a theorem, `Props/C01.lean`).
 -/
@@ -28,14 +29,27 @@ def numOf (mant exp many : String) (neg : Bool := false) : Num :=
 def handle (feats : Features) (t : List String) : Option String :=
   match t with
   | ["cf", ty, q, w, lossy] =>
-    (FTy.ofName ty).map fun F => (Lemire.computeFloat F (intD q) (natD w) (lossy = "1")).render
+    (FTy.ofName ty).map fun F => (Lemire.computeFloat F (intD q) (natD w) (lossy = "1")).render F
   | ["lm", ty, m, e, many, lossy] =>
-    (FTy.ofName ty).map fun F => (Lemire.lemire F (numOf m e many) (lossy = "1")).render
+    (FTy.ofName ty).map fun F => (Lemire.lemire F (numOf m e many) (lossy = "1")).render F
   | "fp" :: ty :: f :: m :: e :: many :: rest =>
     (FTy.ofName ty).map fun F =>
       let fmt := fmtOf f
       (FastPath.tryFastPath (smallSetOf feats) F fmt.mantissaRadix fmt.exponentBase
         (numOf m e many (rest.headD "0" = "1"))).render
+  | ["bel", ty, f, m, e, many, lossy] =>
+    (FTy.ofName ty).map fun F =>
+      let fmt := fmtOf f
+      (Bellerophon.bellerophon F (Bellerophon.powersOf feats fmt.mantissaRadix) (numOf m e many) (lossy = "1")).render F
+  | ["bin", ty, f, m, e, many, lossy] =>
+    (FTy.ofName ty).map fun F =>
+      (Binary.binary F (fmtOf f).exponentBase (numOf m e many) (lossy = "1")).render F
+  | ["sbin", ty, f, e, ih, fh] =>
+    (FTy.ofName ty).map fun F =>
+      let fmt := fmtOf f
+      let r := fmt.mantissaRadix
+      (AlgoRes.ok (Binary.slowBinary F feats.compact r fmt.exponentBase ((smallSetOf feats).u64Step r) (intD e)
+        (unhexBytes ih) (if fh = "-" then none else some (unhexBytes fh)))).render F
   | _ => none
 
 /-- the value the float with significand field `mant` and biased exponent `exp` denotes, as bits -/
@@ -44,8 +58,7 @@ def bitsOf (F : FTy) (fp : ExtendedFloat80) : Nat := extendedToFloat F fp
 /-- contract of a moderate-path result for the exact value `num/den`:
 valid ⇒ exactly `roundNE`; so the prediction is `ok <the correct mant> <the correct exp>` or any `inv`. -/
 def contract (F : FTy) (num den : Nat) : String :=
-  let b := roundNE F.fmt num den
-  s!"ok {b % 2 ^ F.ms} {b / 2 ^ F.ms} || inv"
+  s!"ok {toHex (roundNE F.fmt num den)} || inv"
 
 def powFrac (r : Nat) (e : Int) (m : Nat) : Nat × Nat :=
   if e ≥ 0 then (m * r ^ e.toNat, 1) else (m, r ^ (-e).toNat)
@@ -63,6 +76,31 @@ def spec (_feats : Features) (t : List String) : Option String :=
     specGuard q fun _ => (FTy.ofName ty).map fun F => let x := powFrac 10 (intD q) (natD w); contract F x.1 x.2
   | ["lm", ty, m, e, "0", "0"] =>
     specGuard e fun _ => (FTy.ofName ty).map fun F => let x := powFrac 10 (intD e) (natD m); contract F x.1 x.2
+  | ["bel", ty, f, m, e, "0", "0"] =>
+    specGuard e fun _ => (FTy.ofName ty).map fun F =>
+      let x := powFrac (fmtOf f).mantissaRadix (intD e) (natD m); contract F x.1 x.2 ++ " || panic"
+  | ["bin", ty, f, m, e, "0", "0"] =>
+    specGuard e fun _ => (FTy.ofName ty).map fun F =>
+      let fmt := fmtOf f
+      let x := powFrac fmt.exponentBase (intD e) (natD m); contract F x.1 x.2
+  | ["sbin", ty, f, e, ih, fh] =>
+    -- contract of `slow_binary`: it is called only after `binary` declined (the first `u64_step` significant
+    -- digits are exactly half-way above an even significand); the value is (those digits + 0.rest)·base^e
+    specGuard e fun _ => (FTy.ofName ty).map fun F =>
+      let fmt := fmtOf f
+      let r := fmt.mantissaRadix
+      let step := (smallSetOf _feats).u64Step r
+      let fr := if fh = "-" then [] else unhexBytes fh
+      let sig := ((unhexBytes ih ++ fr).map fun c => Binary.digitVal c r).dropWhile (· = 0)
+      let val := fun (l : List Nat) => l.foldl (fun acc d => acc * r + d) 0
+      let first := val (sig.take step)
+      match Binary.binary F fmt.exponentBase { mantissa := first, exponent := intD e, manyDigits := true } false with
+      | .ok fp =>
+        if fp.exp < 0 then
+          let x := powFrac fmt.exponentBase (intD e) (val sig)
+          contract F x.1 (x.2 * r ^ (sig.length - step))
+        else "-"
+      | .panic => "-"
   | "fp" :: ty :: f :: m :: e :: _many :: rest =>
     specGuard e fun _ => (FTy.ofName ty).map fun F =>
       let fmt := fmtOf f
